@@ -91,6 +91,19 @@ def outline_region(region, name, imports, intent_map=None):
     region_inout_args = region_uses_symbols & region_defines_symbols - imported_symbols
     region_out_args = region_defines_symbols - region_uses_symbols - imported_symbols
 
+    # The variables that the array extents of the region's variables are declared with
+    # are needed in the new routine, too, even if the region itself does not use them
+    region_variables = FindVariables().visit(region.body)
+    region_shape_symbols = OrderedSet(
+        s.parents[0] if s.parent else s
+        for v in sorted(region_variables, key=str) if isinstance(v, sym.Array)
+        for s in sorted(FindVariables().visit(v.type.shape or ()), key=str)
+    )
+    region_shape_symbols = OrderedSet(
+        s for s in region_shape_symbols if s.clone(dimensions=None) not in imported_symbols
+    )
+    region_in_args |= region_shape_symbols - region_uses_symbols - region_defines_symbols
+
     # Remove any parameters from in args
     region_in_args = OrderedSet(arg for arg in region_in_args if not arg.type.parameter)
 
@@ -113,7 +126,7 @@ def outline_region(region, name, imports, intent_map=None):
     # and put all in the new scope
     region_routine_variables = tuple(
         v.clone(dimensions=v.type.shape or None, scope=region_routine)
-        for v in FindVariables().visit(region.body)
+        for v in tuple(region_variables) + tuple(region_shape_symbols)
         if v.clone(dimensions=None) not in imported_symbols
     )
     # Filter out derived-type component variables from declarations
